@@ -106,7 +106,7 @@ def mk_stock(case):
     tl = case.get("time_letter", "t")
     dims = mk_dims(case["grid"], case["extra"], tl)
     shp = shape_of(case["grid"], case["extra"])
-    drv = np.array([float(v) for v in case["driver"]]).reshape(shp)
+    drv = np.array([float(Fraction(v)) for v in case["driver"]]).reshape(shp)
     if case.get("int_dtype") and np.all(drv == np.round(drv)):
         drv = drv.astype(np.int64)        # whole-number counts handed over as an integer array
     k = case["cls"]
